@@ -23,6 +23,10 @@ fn lattice3<S: crate::Src>(s: &mut S) -> (u8, u8, u8) {
 fn lattice3_coarse<S: crate::Src>(s: &mut S) -> (u8, u8, u8) {
     lattice(s, 85)
 }
+/// The 3-level lattice {0,127,254}^3 (27 colours: still every ordering and tie pattern).
+fn lattice3_tiny<S: crate::Src>(s: &mut S) -> (u8, u8, u8) {
+    lattice(s, 127)
+}
 fn lattice<S: crate::Src>(s: &mut S, step: u8) -> (u8, u8, u8) {
     let (r, g, b) = (s.u8(), s.u8(), s.u8());
     s.assume(r % step == 0 && g % step == 0 && b % step == 0);
@@ -219,9 +223,9 @@ harnesses! {
         check!(near(back.blue(), c.blue(), 1e-7), "blue survives rgb -> hsl -> rgb");
         check!(back.alpha() == 1.0, "alpha survives rgb -> hsl -> rgb");
     }
-    /// The same through hwb (4-level lattice).
+    /// The same through hwb (3-level lattice).
     fn c31_rgb_hwb_rgb_roundtrip [unwind 2] [stub_deg_mod] (s) {
-        let (r, g, b) = lattice3_coarse(s);
+        let (r, g, b) = lattice3_tiny(s);
         let c = Rgba::from_rgb(r, g, b);
         let h = Hwba::from(&c);
         cover!(r == g && g > b, "two largest channels tie");
@@ -244,7 +248,7 @@ harnesses! {
     /// Two colours with the same rgba channels compare equal whichever
     /// notation carries them (hex, rgb(), hsl), lattice colours.
     fn c31_same_rgba_equal_across_notations [unwind 2] [stub_deg_mod] (s) {
-        let (r, g, b) = lattice3_coarse(s);
+        let (r, g, b) = lattice3_tiny(s);
         let c = Rgba::from_rgb(r, g, b);
         let as_rgb = Color::Rgba(Rgba::new(c.red(), c.green(), c.blue(), 1.0, RgbFormat::Rgb));
         let as_hsl = Color::Hsla(Hsla::from(&c));
